@@ -13,8 +13,8 @@ def rerrJ (t : Tree Nat) : RErr → Json
 def runResolve (j : Json) : R (Json × Json) := do
   let t ← treeOfJson (← getField j "tree")
   let na ← getArr j "names"
-  let names ← na.toList.mapM (fun e => do let a ← asArr e; pure ((← asNat a[0]!), (← asStr a[1]!)))
-  let nameOf : Nat → String := fun l => ((names.find? (fun e => e.1 == l)).map Prod.snd).getD "None"
+  let names0 ← na.toList.mapM (fun e => do let a ← asArr e; pure ((← asNat a[0]!), (← asStr a[1]!)))
+  let mut names : List (Nat × String) := names0
   let sep ← (getStr j "sep" <|> pure Generated.separator)
   let legacy ← (getBool j "legacy" <|> pure false)
   let qs ← getArr j "queries"
@@ -23,6 +23,16 @@ def runResolve (j : Json) : R (Json × Json) := do
   let mut ss : Array Json := #[]
   for q in qs do
     let fn ← getStr q "fn"
+    if fn == "rename" then
+      -- the path attribute of one node is changed between two queries: later queries see the tree as it is then
+      let l ← getNat q "label"
+      let v ← getStr q "name"
+      names := (names.filter (fun e => e.1 != l)) ++ [(l, v)]
+      ms := ms.push (Json.mkObj [("ok", Json.null)])
+      ss := ss.push (Json.mkObj [("ok", Json.null)])
+      continue
+    let namesNow := names
+    let nameOf : Nat → String := fun l => ((namesNow.find? (fun e => e.1 == l)).map Prod.snd).getD "None"
     let startL ← getNat q "start"
     let path ← getStr q "path"
     let ic ← getBool q "ignorecase"
